@@ -14,6 +14,7 @@ class RefTable:
         self.flagged = 0
         self.exact_rows = 0
         self.illtyped = False
+        self.mixed_fixed = False
         self.values = {}
 
 
@@ -66,6 +67,8 @@ def ref_table(src, args, ret, sp, extra=None, fname=None, kwargs=None, keep_valu
             rt.undefined += 1
             continue
         rt.defined += 1
+        if st.mixed_fixed:
+            rt.mixed_fixed = True
         if st.ovf:
             rt.flagged += 1
         else:
